@@ -2,7 +2,7 @@
 
 CFG = dict(
     tests=["TestC18"],
-    n_quick=150, n_thorough=1500, shards_thorough=4,
+    n_quick=400, n_thorough=2500, shards_thorough=4,
     timeout_quick=600, timeout_thorough=3000,
     shrink_fields=["phases"],
     rule="part A (cases.v): one case = one synctest bubble around the REAL service.NewRecoverer wrapping a gated service of one of "
